@@ -1242,7 +1242,7 @@ def to_digits_exp(s, dps):
                 # The two ends keep straddling a dps-digit decimal D: s is
                 # D itself or extremely close to it. Compare exactly.
                 # D = N * 10^e10 is the decimal that the upper end reached
-                N = int(digits2[:dps].ljust(dps, '0'))
+                N = str_to_int(digits2[:dps].ljust(dps, '0'))
                 e10 = exponent2 - (dps-1) + b
                 lhs = man << max(exp, 0)
                 rhs = N << max(-exp, 0)
